@@ -266,7 +266,13 @@ class TreeContextMixin:
                 return self.create_value(scope_node).as_context()
             elif scope_node.type in ('comp_for', 'sync_comp_for'):
                 parent_context = from_scope_node(parent_scope(scope_node.parent))
-                if node.start_pos >= scope_node.children[-1].start_pos:
+                # Only the iterable is evaluated outside of the comprehension,
+                # its conditions and nested loops see the loop variables.
+                sync_comp_for = scope_node
+                if sync_comp_for.type == 'comp_for':
+                    sync_comp_for = sync_comp_for.children[1]
+                iterable = sync_comp_for.children[3]
+                if iterable.start_pos <= node.start_pos < iterable.end_pos:
                     return parent_context
                 return CompForContext(parent_context, scope_node)
             raise Exception("There's a scope that was not managed: %s" % scope_node)
